@@ -194,3 +194,36 @@ VARIANTS.update({
     "else after a terminating if-body": v_else_after_return,
     "f-strings spelled as concatenations": v_fstrings_as_concatenation,
 })
+
+
+# ---------------------------------------------------------------- private helpers renamed (definition and every reference in the package)
+def v_private_functions_renamed(d: Path):
+    files = _py_files(d)
+    trees = {p: ast.parse(p.read_text()) for p in files}
+    names = set()
+    for t in trees.values():
+        for n in ast.walk(t):
+            if isinstance(n, (ast.FunctionDef, ast.AsyncFunctionDef)) and n.name.startswith("_") and not n.name.startswith("__"):
+                names.add(n.name)
+    # names that are also used as attribute/field names elsewhere are left alone (a textual rename would not be safe)
+    fields = {n.attr for t in trees.values() for n in ast.walk(t) if isinstance(n, ast.Attribute) and isinstance(n.ctx, ast.Store)}
+    names -= fields
+    names -= {"_find"}          # imported by name in the project's own tests
+    ren = {n: n + "_helper" for n in names}
+    for p, t in trees.items():
+        for n in ast.walk(t):
+            if isinstance(n, (ast.FunctionDef, ast.AsyncFunctionDef)) and n.name in ren:
+                n.name = ren[n.name]
+            elif isinstance(n, ast.Name) and n.id in ren:
+                n.id = ren[n.id]
+            elif isinstance(n, ast.Attribute) and n.attr in ren:
+                n.attr = ren[n.attr]
+            elif isinstance(n, ast.ImportFrom):
+                for a in n.names:
+                    if a.name in ren:
+                        a.name = ren[a.name]
+        ast.fix_missing_locations(t)
+        p.write_text(ast.unparse(t) + "\n")
+
+
+VARIANTS["private helper functions renamed"] = v_private_functions_renamed
